@@ -117,6 +117,11 @@ class Analysis(object):
         sc = self.anno.getanno(node.ast_node, self.anno.Static.SCOPE, default=None)
         return None if sc is None else scope_dict(sc)
 
+    def loop_targets(self, node):
+        """node_scope.iterate_targets (absent before the edge-sensitive for-header repair -> empty)"""
+        sc = self.anno.getanno(node.ast_node, self.anno.Static.SCOPE, default=None)
+        return sorted(str(q) for q in getattr(sc, 'iterate_targets', ())) if sc is not None else []
+
     def reaching_fns(self, node):
         """[(is_lambda, scope dict of ARGS_AND_BODY_SCOPE, FunctionDef/Lambda node)] of DEFINED_FNS_IN"""
         from malt.pyct.static_analysis import annos
@@ -1021,10 +1026,10 @@ def lv_case(an, fi, idx):
                 cread |= set(a)
                 cread_nl |= set(b)
         e = eff[l]
-        rows.append('(mknode %d %s %s [%s] %s %s [] %s %s %s %s %s %s %d)' % (
+        rows.append('(mknode %d %s %s [%s] %s %s [] %s %s %s %s %s %s %s %d)' % (
             l, 'true' if sc is not None else 'false', coq_scope(sc, nt),
             '; '.join('(%s, %s)' % ('true' if is_l else 'false', coq_scope(d, nt)) for is_l, d, _ in fns),
-            nt.lst(sorted(cread)), nt.lst(sorted(cread_nl)),
+            nt.lst(sorted(cread)), nt.lst(sorted(cread_nl)), nt.lst(an.loop_targets(node)),
             nt.lst(sorted(str(q) for q in fi.lv.in_[node])), nt.lst(sorted(str(q) for q in fi.lv.out[node])),
             nt.lst(e['reads']), nt.lst(e['writes']), nt.lst(e['dels']), nt.lst(e['ftarget']), e['body']))
         dl = [fi.sk.label[id(d)] for _, _, d in fns if id(d) in fi.sk.label]
@@ -1050,8 +1055,8 @@ def rd_case(an, fi, idx):
         sc = an.node_scope(node)
         e = eff[l]
         genk = sorted(str(s) for s in fi.rd.gen_map[node].value) if node in fi.rd.gen_map else []
-        rows.append('(mknode %d %s %s [] [] [] %s %s %s %s %s %s %s %d)' % (
-            l, 'true' if sc is not None else 'false', coq_scope(sc, nt), nt.lst(genk),
+        rows.append('(mknode %d %s %s [] [] [] %s %s %s %s %s %s %s %s %d)' % (
+            l, 'true' if sc is not None else 'false', coq_scope(sc, nt), nt.lst(genk), nt.lst(an.loop_targets(node)),
             items(fi.rd.in_[node]), items(fi.rd.out[node]),
             nt.lst(e['reads']), nt.lst(e['writes']), nt.lst(e['dels']), nt.lst(e['ftarget']), e['body']))
         roots = [node.ast_node]
@@ -1245,6 +1250,14 @@ def check_property(run, kind, generate):
             if kind == 'lv' and code == 6:
                 run.violation('variables read and declared nonlocal by a reaching local function are not live', {},
                               classify='liveness-nonlocal-closure-read')
+                continue
+            if code == 7:
+                # only the edge-sensitive (unguarded) inclusions fail: the for header kills / redefines its targets
+                # on the loop-exit edge as well
+                run.violation('a for-loop header treats its targets as assigned on the loop-exit edge',
+                              {'program': meta[idxs[0]][0], 'function': meta[idxs[0]][1],
+                               'broken': 'lv_sound_e / rd_sound_e (coq/Flow/Dataflow.v) is false on the exported data'},
+                              found_input=False, classify='for-target-killed-on-exit-edge')
                 continue
             tie_broken.append('%s (programs e.g. %s)' % (CODES.get(code, 'code %d' % code), idxs[:5]))
             run.extra.setdefault('coq_failing_examples', []).append({'code': code, 'program': meta[idxs[0]][0], 'function': meta[idxs[0]][1]})
